@@ -10,13 +10,13 @@ package types
 // hit wins, files in emitted order) with the rule C04 designates: an exact rule
 // equal to the path, otherwise a matching rule with the longest declared path.
 //
-// Space (scale 1): every set of 1..3 rules over hosts {h1,h2} x paths
-// {/, /a, /a/b, /ab, /A, /a/B} x types {exact,prefix,begin}; the six orders of
-// (exact,prefix,begin) followed by regex; requests: both hosts x 14 paths.
-// Rule sets that declare one path of one host with two different non-exact
-// types are skipped (no rule is documented for them).
-// VERIF_BOUND_SCALE>=2 adds the paths /a/b/c and /A/b and sets of 4 rules over host h1;
-// VERIF_BOUND_SCALE>=3 does the same over both hosts.
+// Space: (A) every set of 1..3 rules over hosts {h1,h2} x paths
+// {/, /a, /a/b, /ab, /A, /a/B} x types {exact,prefix,begin}; (B) every set of
+// 1..4 rules over host h1 and the paths of (A) plus /a/b/c and /A/b; the six
+// orders of (exact,prefix,begin) followed by regex; requests: both hosts x 15
+// paths.  Rule sets that declare one path of one host with two different
+// non-exact types are skipped (no rule is documented for them).
+// VERIF_BOUND_SCALE>=3 (thorough tier) adds (C): (B) over both hosts.
 //
 // The lookup model (match_dir with '/' '?' delimiters, longest match for beg)
 // is trusted.
@@ -156,29 +156,25 @@ func bUndocumented(rules []bRule) bool {
 	return false
 }
 
+type bSpace struct {
+	hosts    []string
+	paths    []string
+	maxRules int
+}
+
 func TestBoundedC04Precedence(t *testing.T) {
 	scale, _ := strconv.Atoi(os.Getenv("VERIF_BOUND_SCALE"))
-	paths := []string{"/", "/a", "/a/b", "/ab", "/A", "/a/B"}
-	hosts := []string{"h1", "h2"}
-	maxRules := 3
-	if scale >= 2 {
-		paths = append(paths, "/a/b/c", "/A/b")
-		hosts = []string{"h1"}
-		maxRules = 4
+	base := []string{"/", "/a", "/a/b", "/ab", "/A", "/a/B"}
+	more := append(append([]string{}, base...), "/a/b/c", "/A/b")
+	spaces := []bSpace{
+		{[]string{"h1", "h2"}, base, 3},
+		{[]string{"h1"}, more, 4},
 	}
 	if scale >= 3 {
-		hosts = []string{"h1", "h2"}
+		spaces = append(spaces, bSpace{[]string{"h1", "h2"}, more, 4})
 	}
 	types := []MatchType{MatchExact, MatchPrefix, MatchBegin}
-	var all []bRule
-	for _, h := range hosts {
-		for _, p := range paths {
-			for _, m := range types {
-				all = append(all, bRule{h, p, m})
-			}
-		}
-	}
-	reqs := []string{"/", "/a", "/a/", "/a/b", "/a/b/", "/a/bc", "/a/b/c", "/a/B", "/a/B/c", "/ab", "/A", "/A/b", "/A/B/x", "/x"}
+	reqs := []string{"/", "/a", "/a/", "/a/b", "/a/b/", "/a/bc", "/a/b/c", "/a/b/cd", "/a/B", "/a/B/c", "/ab", "/A", "/A/b", "/A/B/x", "/x"}
 	orders := [][]MatchType{
 		{MatchExact, MatchPrefix, MatchBegin, MatchRegex}, {MatchExact, MatchBegin, MatchPrefix, MatchRegex},
 		{MatchPrefix, MatchExact, MatchBegin, MatchRegex}, {MatchPrefix, MatchBegin, MatchExact, MatchRegex},
@@ -186,7 +182,6 @@ func TestBoundedC04Precedence(t *testing.T) {
 	}
 	cases := 0
 	fail := ""
-	var rec func(start int, cur []bRule)
 	check := func(rules []bRule) {
 		if bUndocumented(rules) {
 			return
@@ -210,18 +205,29 @@ func TestBoundedC04Precedence(t *testing.T) {
 			}
 		}
 	}
-	rec = func(start int, cur []bRule) {
-		if len(cur) > 0 {
-			check(cur)
+	for _, sp := range spaces {
+		var all []bRule
+		for _, h := range sp.hosts {
+			for _, p := range sp.paths {
+				for _, m := range types {
+					all = append(all, bRule{h, p, m})
+				}
+			}
 		}
-		if len(cur) == maxRules {
-			return
+		var rec func(start int, cur []bRule)
+		rec = func(start int, cur []bRule) {
+			if len(cur) > 0 {
+				check(cur)
+			}
+			if len(cur) == sp.maxRules {
+				return
+			}
+			for i := start; i < len(all); i++ {
+				rec(i+1, append(append([]bRule{}, cur...), all[i]))
+			}
 		}
-		for i := start; i < len(all); i++ {
-			rec(i+1, append(append([]bRule{}, cur...), all[i]))
-		}
+		rec(0, nil)
 	}
-	rec(0, nil)
 	fmt.Printf("BOUNDED-CASES %d\n", cases)
 	if fail != "" {
 		fmt.Printf("BOUNDED-FAIL %s\n", fail)
